@@ -196,7 +196,7 @@ fn child_unit(dir: &Path, ops: &Value) -> ! {
     std::process::exit(0)
 }
 
-struct ChildOut { killed: bool, stdout: String, kill_log: Vec<String>, status: String }
+struct ChildOut { killed: bool, stdout: String, stderr: String, kill_log: Vec<String>, status: String }
 
 fn spawn_child(args: &[String], kill_at: Option<u64>, cut: Option<u64>) -> ChildOut {
     let exe = std::env::current_exe().unwrap();
@@ -219,7 +219,7 @@ fn spawn_child(args: &[String], kill_at: Option<u64>, cut: Option<u64>) -> Child
     } else if kill_log.is_empty() {
         panic!("child {:?} failed without reaching its kill point: {}\n{}", args, out.status, stderr);
     }
-    ChildOut { killed, stdout, kill_log, status: out.status.to_string() }
+    ChildOut { killed, stdout, stderr, kill_log, status: out.status.to_string() }
 }
 
 fn child_json(o: &ChildOut) -> Value {
@@ -602,9 +602,10 @@ fn n_objects(built: &Built, ca: &str, v: usize) -> usize {
     c.versions[v].entries.iter().filter(|e| e.listed).count() + c.versions[v].crl.listed as usize
 }
 
+static TEMPLATE: OnceLock<Template> = OnceLock::new();
+
 fn template() -> &'static Template {
-    static T: OnceLock<Template> = OnceLock::new();
-    T.get_or_init(|| {
+    TEMPLATE.get_or_init(|| {
         let tmp = tempfile::Builder::new().prefix("c23e-").tempdir().unwrap();
         let dir = tmp.path().join("template");
         let built = build(&e2e_spec()).expect("build");
@@ -614,7 +615,7 @@ fn template() -> &'static Template {
         // again when the whole run takes less than a second (its LastAttempt time, whole seconds, is then
         // earlier than the run's start time)
         let r1 = spawn_child(&["run".into(), dir.display().to_string(), "d".into()], None, None);
-        assert_eq!(child_json(&r1)["result"], "ok", "first run: {}", r1.stdout);
+        assert_eq!(child_json(&r1)["result"], "ok", "first run: {}\n{}", r1.stdout, r1.stderr);
         // a temporary file left behind by some earlier crash
         std::fs::create_dir_all(dir.join("cache/stored/tmp")).unwrap();
         std::fs::write(dir.join("cache/stored/tmp/left7"), b"").unwrap();
@@ -623,7 +624,7 @@ fn template() -> &'static Template {
         copy_dir(&dir, &refdir);
         let r2 = spawn_child(&["run".into(), refdir.display().to_string(), "-".into()], None, None);
         let j2 = child_json(&r2);
-        assert_eq!(j2["result"], "ok", "reference run: {}", r2.stdout);
+        assert_eq!(j2["result"], "ok", "reference run: {}\n{}", r2.stdout, r2.stderr);
         let expected = serde_json::to_value(expected_fresh(&built.truth, &ServePlan::step(1), &RunCfg::default())).unwrap();
         assert_eq!(j2["payload"], expected, "reference payload differs from the ground truth");
         let n = |ca: &str, v: usize| n_objects(&built, ca, v);
@@ -754,5 +755,7 @@ fn main() {
             x => panic!("unknown child mode {}", x),
         }
     }
-    drive_par(gen, run, 8)
+    drive_par(gen, run, 8);
+    // the template lives in a static and is never dropped: remove its directory by hand
+    if let Some(t) = TEMPLATE.get() { let _ = std::fs::remove_dir_all(t._tmp.path()); }
 }
